@@ -65,8 +65,8 @@ theorem lemma_finish_panicked (sn : Sniff) (b : Base) : (b.finish sn).panicked =
     by_cases hw : wrote = true <;> by_cases hs : sent = true <;>
       simp [Base.finish, Base.flush, Base.writeHeader, Base.emit, hw, hs, validCode, informational]
 
-theorem lemma_init (sn : Sniff) (cfg : Cfg) (enc : Bytes) (henc : enc ≠ []) :
-    Inv sn false ({ thr := cfg.minSize, enc := enc, exclCT := cfg.exclCT } : CW) {} := by
+theorem lemma_init (sn : Sniff) (cfg : Cfg) (enc : Bytes) (h0 : Hdrs) (henc : enc ≠ []) :
+    Inv sn false ({ base := { live := h0 }, thr := cfg.minSize, enc := enc, exclCT := cfg.exclCT } : CW) { live := h0 } := by
   left
   refine ⟨⟨Or.inl ⟨rfl, rfl, fun _ => ⟨rfl, rfl, rfl⟩, fun h => absurd rfl h⟩, henc⟩, fun _ => ⟨rfl, fun _ => rfl⟩⟩
 
